@@ -35,6 +35,7 @@ THEOREMS = [
     "NfcVerif.C14.crc_b_eq_iso",
     "NfcVerif.C14.crc_check_add",
     "NfcVerif.C14.crc_check_iff",
+    "NfcVerif.C14.crc_detects_single_bit",
 ]
 
 
